@@ -296,10 +296,12 @@ theorem psMarker_free (u16 : Bool) (eol : Nat) (saved : Bytes) (ts : Nat) (line 
   unfold psMarker
   split
   · trivial
-  · refine ⟨rfl, fun b en => ?_⟩
-    cases en with
-    | limit => trivial
-    | src t => cases t <;> trivial
+  · split
+    · trivial
+    · refine ⟨rfl, fun b en => ?_⟩
+      cases en with
+      | limit => trivial
+      | src t => cases t <;> trivial
 
 theorem psStep_free (u16 : Bool) (first saved : Bytes) (ts : Nat) (line : Bytes) (e : Option BErr)
     {again : Bytes → Nat → Prog PSOut} (h : ∀ x y, (again x y).Free true true false) :
